@@ -511,5 +511,15 @@ func representativePrograms() []repProg {
 		},
 		StartKind: ref.StartOrg, StartExpr: toks("first+1"),
 	})
+	// 9: labels that differ only in letter case, and one that looks like a number suffix
+	add(g.ICWS94, &ref.AProg{
+		Equs: []ref.AEqu{{Name: "Step", Body: toks("2")}, {Name: "step", Body: toks("5")}},
+		Ins: []ref.AIns{
+			{Labels: []string{"x"}, Op: "mov", A: operand("", "X"), B: operand("", "x+Step")},
+			{Labels: []string{"X"}, Op: "add", A: operand("#", "step"), B: operand("", "x")},
+			{Labels: []string{"x2"}, Op: "jmp", A: operand("", "X-x2"), B: operand("", "x2-x")},
+		},
+		StartKind: ref.StartEnd, StartExpr: toks("X"),
+	})
 	return out
 }
